@@ -266,6 +266,17 @@ def main():
         n = min(chunk, count - done)
         out = "%s/batch.%d.jsonl" % (TMP, os.getpid())
         part = run_batch(prop, tier, seed0 + done, n, jobs, out, (), wall_cap)
+        # the per-run wall-clock cap is a guard of the driver, not part of the simulation: a run that hit
+        # it (machine overloaded) is repeated alone with a generous cap before it counts as anything
+        for i, r in enumerate(part):
+            if r.get("outcome") == "wall":
+                o2 = "%s/rewall.%d.jsonl" % (TMP, os.getpid())
+                again = run_batch(prop, tier, r["seed"], 1, 1, o2, (), wall_cap * 8)
+                if os.path.exists(o2):
+                    os.unlink(o2)
+                if again:
+                    log("note: seed %d hit the %d s wall-clock cap, repeated alone: %s" % (r["seed"], wall_cap, again[0].get("outcome")))
+                    part[i] = again[0]
         results += part
         if os.path.exists(out):
             os.unlink(out)
